@@ -52,9 +52,15 @@ def load_sources(filename,
         logging.error("Some required columns missing or mis-labeled")
         return None
     # rename the table columns
-    for old, new in zip([ra_col, dec_col, peak_col, a_col, b_col, pa_col],
-                        ['ra', 'dec', 'peak_flux', 'a', 'b', 'pa']):
-        table.rename_column(old, new)
+    std_cols = ['ra', 'dec', 'peak_flux', 'a', 'b', 'pa']
+    # a standard column that is not itself selected would clash with the
+    # column that is renamed onto it
+    for new in std_cols:
+        if new in table.colnames and new not in required_cols:
+            table.remove_column(new)
+    for old, new in zip(required_cols, std_cols):
+        if old != new:
+            table.rename_column(old, new)
 
     catalog = catalogs.table_to_source_list(table)
     logging.info("read {0} sources from {1}".format(len(catalog), filename))
